@@ -1,7 +1,7 @@
 (* Lemmas for M_shapes.v (C16): combinatorics of the two face tables by computation, measures over R. *)
 From Coq Require Import ZArith Reals Lra Psatz List Bool Lia Nsatz Arith.
 From PW Require Import Num NumR Vec Result.
-From PW.model Require Import M_shapes.
+From PW.model Require Import M_shapes M_shapes_spec.
 From PW.proofs Require Import P_vec.
 Import ListNotations.
 Local Open Scope R_scope.
@@ -79,9 +79,6 @@ Proof.
   cbv [nsum fold_left]; rops. field.
 Qed.
 
-(* the eight vertices are exactly the corners origin + (0|sx, 0|sy, 0|sz) *)
-Definition corner (o s : vec3 R) (bx by_ bz : bool) : vec3 R :=
-  V3 (vx o + (if bx then vx s else 0)) (vy o + (if by_ then vy s else 0)) (vz o + (if bz then vz s else 0)).
 Lemma rect_vertices_are_corners o s :
   rect_prism_vertices ROps o s =
   [corner o s false false false; corner o s true false false; corner o s true false true; corner o s false false true;
@@ -98,9 +95,6 @@ Proof.
   - intros (bx & by_ & bz & ->). destruct bx, by_, bz; cbn [In]; tauto.
 Qed.
 
-(* every face normal points away from the centre of the box: (b-a)x(c-a) . (a - centre) > 0 *)
-Definition outward_from (ctr : vec3 R) (t : vec3 R * vec3 R * vec3 R) : Prop :=
-  let '(a, b, c) := t in 0 < vdot ROps (vcross ROps (vsub ROps b a) (vsub ROps c a)) (vsub ROps a ctr).
 Lemma rect_outward o s : 0 < vx s -> 0 < vy s -> 0 < vz s ->
   Forall (outward_from (vadd ROps o (vscale ROps (1 / 2) s)))
          (somes (flatten (rect_prism_vertices ROps o s) rect_prism_faces)).
@@ -121,9 +115,6 @@ Proof.
   destruct p1 as [a b c], p2 as [d e f], p3 as [g h i], off as [x y z]. sunf. unfold tri_cross. vunf. ring.
 Qed.
 
-Definition noncollinear (p1 p2 p3 : vec3 R) : Prop := tri_cross ROps p1 p2 p3 <> V3 0 0 0.
-(* area of the base triangle *)
-Definition base_area (p1 p2 p3 : vec3 R) : R := vnorm ROps (tri_cross ROps p1 p2 p3) / 2.
 
 Lemma tri_normal_dot p1 p2 p3 : noncollinear p1 p2 p3 ->
   vdot ROps (tri_cross ROps p1 p2 p3) (tri_normal ROps p1 p2 p3) = vnorm ROps (tri_cross ROps p1 p2 p3).
@@ -178,7 +169,6 @@ Proof.
   replace (h * vnorm ROps e * (h * vnorm ROps e)) with (h * h * (vnorm ROps e * vnorm ROps e)) by ring.
   rewrite vnorm_sq. destruct e as [a b c], n as [x y z]. vunf_in Hn. vunf_in He. vunf. nsatz.
 Qed.
-Definition perimeter (p1 p2 p3 : vec3 R) : R := vdist ROps p2 p1 + vdist ROps p3 p2 + vdist ROps p1 p3.
 
 Lemma vnorm_neg v : vnorm ROps (vneg ROps v) = vnorm ROps v.
 Proof. unfold vnorm; rops. f_equal. destruct v. vunf. ring. Qed.
@@ -233,9 +223,6 @@ Definition tri_flat_list (l : list (option (vec3 R * vec3 R * vec3 R))) : list R
   flat_map (fun t => match t with Some (a, b, c) => vlist a ++ vlist b ++ vlist c | None => [] end) l.
 
 (* ---------------------------------------------------------------------------------------------- *)
-(* outward orientation of the triangular prism: every face normal points away from the centroid      *)
-Definition tri_prism_centre (p1 p2 p3 off : vec3 R) : vec3 R :=
-  vadd ROps (vscale ROps (1 / 3) (vadd ROps (vadd ROps p1 p2) p3)) (vscale ROps (1 / 2) off).
 
 (* for ANY offset with c . off < 0 (the second base lies on the side opposite to the ccw normal) *)
 Lemma tri_outward_gen p1 p2 p3 off : vdot ROps (tri_cross ROps p1 p2 p3) off < 0 ->
@@ -282,3 +269,25 @@ Lemma tri_flat_all_defined p1 p2 p3 h :
   flatten vs tri_prism_faces =
     map (fun f => let '(a, b, c) := f in Some (List.nth a vs p1, List.nth b vs p1, List.nth c vs p1)) tri_prism_faces.
 Proof. reflexivity. Qed.
+
+(* ---------------------------------------------------------------------------------------------- *)
+(* flattened form through tri_at / nth_error (no default element): every row is defined             *)
+Lemma rect_flat_rows o s :
+  rectangular_prism_flat ROps o s = map (tri_at (rect_prism_vertices ROps o s)) rect_prism_faces /\
+  forallb is_some (rectangular_prism_flat ROps o s) = true.
+Proof. split; reflexivity. Qed.
+Lemma tri_flat_rows p1 p2 p3 h :
+  forallb is_some (flatten (tri_prism_vertices ROps p1 p2 p3 h) tri_prism_faces) = true.
+Proof. reflexivity. Qed.
+
+(* the given triangle is a face (in the given order), and so is the far base, reversed *)
+Lemma tri_base_faces : In (0, 1, 2)%nat tri_prism_faces /\ In (5, 4, 3)%nat tri_prism_faces.
+Proof. cbn; tauto. Qed.
+
+(* outward = positive enclosed signed volume *)
+Lemma rect_volume_pos o s : 0 < vx s -> 0 < vy s -> 0 < vz s ->
+  0 < signed_volume ROps (rect_prism_vertices ROps o s) rect_prism_faces.
+Proof. intros. rewrite rect_volume. apply Rmult_lt_0_compat; [apply Rmult_lt_0_compat|]; assumption. Qed.
+Lemma tri_volume_pos p1 p2 p3 h : noncollinear p1 p2 p3 -> 0 < h ->
+  0 < signed_volume ROps (tri_prism_vertices ROps p1 p2 p3 h) tri_prism_faces.
+Proof. intros H Hh. rewrite tri_volume by exact H. apply Rmult_lt_0_compat; [apply base_area_pos, H | exact Hh]. Qed.
